@@ -5,7 +5,8 @@ from props import common_match
 PID = 'C01'
 SOURCES = ['SoupVerif/Properties/C01.lean', 'SoupVerif/Model/Match.lean', 'SoupVerif/Model/Tree.lean',
            'SoupVerif/Model/Regex.lean', 'SoupVerif/Model/Api.lean',
-           'SoupVerif/Generated/PyAttrs.lean', 'SoupVerif/Properties/C01GenAttrs.lean']
+           'SoupVerif/Generated/PyAttrs.lean', 'SoupVerif/Properties/C01GenAttrs.lean',
+           'SoupVerif/Model/RelBranch.lean', 'SoupVerif/Generated/PyRelations.lean', 'SoupVerif/Properties/C01GenRel.lean']
 RULE = ('documents: random trees over a 7-tag / 4-id / 3-class / 4-attribute vocabulary, built through the bs4 API as '
         'html (no namespaces), html5 (XHTML namespace), xhtml and xml, with and without interleaved text / comment / '
         'CDATA / PI nodes, several top-level nodes, detached fragments; selectors: random ASTs of the C01 grammar '
